@@ -63,6 +63,18 @@ CHECKS.update({
             "numeric and not decided.", "§4 C12", "branch-condition provenance + who-may-write on MIR via rustc_private driver"),
 })
 
+CHECKS.update({
+    "C10": ("Drop-flag aware linear-use checks for every sink-level merge/insert/send body and every AggregateValue strategy; drain-loop "
+            "rule for flush (one append per drained item, built from closed key and aggregate); tee symmetry; worker message protocol "
+            "(merge once per Entry, ack dominated by flush) and termination (Return reachable from the disconnected outcome through a "
+            "final flush). Exhaustive over paths of these bodies; arithmetic of sums/histograms not decided.", "§4 C10",
+            "MIR linear-use typestate + must-pass-through / reachability rules via rustc_private driver"),
+    "C20": ("Who-may-touch rule on the atomic cells under readout (exactly one read-modify-write feeds the reported counter value; gauges "
+            "only loaded; histograms via atomic drain), provenance rules for the entry writer (name, labels, described unit, observation "
+            "kind), registration shares registry storage, reporter appends every readout. Races themselves rest on AtomicU64::swap semantics.",
+            "§4 C20", "who-may-call on atomic operations + def-use provenance on MIR via rustc_private driver"),
+})
+
 NA_PENDING = {}
 
 def main():
